@@ -333,6 +333,14 @@ def selfcheck():
     p = subprocess.run(["/usr/bin/cvc5", "--version"], capture_output=True, text=True)
     print((p.stdout or "").splitlines()[0] if p.stdout else "cvc5 missing")
     os.makedirs(EVID, exist_ok=True)
+    # CPython cross-check of the executor's semantics (guards A-builtins); a mismatch is a checker fault
+    p = subprocess.run(["python3-vt", "-m", "pyvc.crosscheck"], cwd=HERE, capture_output=True, text=True, timeout=1200)
+    line = [l for l in p.stdout.splitlines() if l.startswith("{")]
+    print("crosscheck:", line[-1][:300] if line else p.stderr[-300:])
+    if line:
+        open(os.path.join(EVID, "crosscheck.json"), "w").write(line[-1])
+    if p.returncode != 0:
+        return 3
     print("selfcheck ok")
     return 0
 
